@@ -476,7 +476,7 @@ MsgReqBatch(s, a) ==
     LET tok == TokByDenom(s.cfg, a.chain, a.denom) IN
     IF ~IsChain(s.cfg, a.chain) \/ ~Found(tok) THEN Err(s)
     ELSE LET r == BuildBatch(s, a.chain, tok.ext, BatchCap)
-         IN IF r.made THEN Ok(r.s) ELSE Err(s)
+         IN IF r.made THEN Ok(r.s) ELSE Ok(s)       \* nothing to batch: accepted, nothing created
 
 \* stateless validation of an event (ExternalEvent.Validate) on the modelled fields
 EventValid(cfg, chain, ev) ==
